@@ -79,6 +79,72 @@ Theorem C03_diffuse_sampling_independent {T} {O : Ops T} {RL : RingLaws T}
 Proof. exact (diffuse_sampling_independent sc sc' rho tm s s' K j d d' b t). Qed.
 Print Assumptions C03_diffuse_sampling_independent.
 
+(** (4') a caveat on (4): [diffuse sc rho] quantifies over ALL table indices, and [beta] -- a total
+    lookup into nested lists -- returns 0 beyond the end of a table, so the hypothesis only allows
+    reflectance 0 in every band (the same trap as [C09_model_diffuse_everywhere_forces_zero]):
+    (4) as stated compares two scenes that reflect nothing.  It is kept, and restated in (4'')
+    with hypotheses a scene given by lists can meet. *)
+From SV Require Import Proofs.DiffuseBounded.
+Theorem C03_diffuse_forces_zero {T} {O : Ops T} (sc : @scene T) (rho : nat -> nat -> T) :
+  diffuse sc rho -> forall w b, rho w b = 0%T.
+Proof.
+  intros H w b.
+  exact (Proofs.ReciprocityVis.diffuse_everywhere_forces_zero sc b (fun w => rho w b)
+           (fun w a d => H w a d b) w).
+Qed.
+Print Assumptions C03_diffuse_forces_zero.
+
+(** (4'') (4) with the diffuse hypothesis restricted to the IN-RANGE table entries of each scene
+    (walls that have a table index, incoming samples below the number of rows of that wall's
+    table, outgoing slots below [s_nd], bands below [s_nb]) plus the shape condition that makes
+    every lookup land in range (every patch's wall has a table index, a non-empty incoming
+    direction set and a table row for each incoming direction).  The two scenes may differ in
+    the number of incoming samples, of outgoing slots, and in their direction sets.
+    Non-vacuity: [Instances/NonVacuity.v], [C03_diffuse_sampling_independent_bounded_witness]
+    (1 x 1 against 2 x 3 directions, reflectances 1/2 and 1/3, non-zero histograms). *)
+Theorem C03_diffuse_sampling_independent_bounded {T} {O : Ops T} {RL : RingLaws T}
+    (sc sc' : @scene T) rho tm (s s' : @source T) K j d d' b t :
+  same_room sc sc' ->
+  (forall j, j < s_np sc ->
+     wall sc j < length (s_tidx sc) /\ in_dirs sc (wall sc j) <> [] /\
+     length (in_dirs sc (wall sc j)) <= length (nthl (s_tables sc) (nthn (s_tidx sc) (wall sc j)))) ->
+  (forall j, j < s_np sc' ->
+     wall sc' j < length (s_tidx sc') /\ in_dirs sc' (wall sc' j) <> [] /\
+     length (in_dirs sc' (wall sc' j)) <= length (nthl (s_tables sc') (nthn (s_tidx sc') (wall sc' j)))) ->
+  (forall w a d b, w < length (s_tidx sc) -> a < length (nthl (s_tables sc) (nthn (s_tidx sc) w)) ->
+     d < s_nd sc -> b < s_nb sc -> beta sc w a d b = rho w b) ->
+  (forall w a d b, w < length (s_tidx sc') -> a < length (nthl (s_tables sc') (nthn (s_tidx sc') w)) ->
+     d < s_nd sc' -> b < s_nb sc' -> beta sc' w a d b = rho w b) ->
+  wf_scene sc -> wf_scene sc' ->
+  src_pos s = src_pos s' -> src_vis s = src_vis s' -> src_share s = src_share s' ->
+  src_dirfac s = None -> src_dirfac s' = None ->
+  j < s_np sc -> d < s_nd sc -> d' < s_nd sc' -> b < s_nb sc -> t < n_samples tm ->
+  get4 (patch_hist sc tm s K) j d b t = get4 (patch_hist sc' tm s' K) j d' b t.
+Proof. exact (diffuse_sampling_independent_bounded sc sc' rho tm s s' K j d d' b t). Qed.
+Print Assumptions C03_diffuse_sampling_independent_bounded.
+
+(** ... and with the diffuse hypothesis asked only of the entries the two models READ: the
+    incoming sample selected for each visible pair and for each patch the source sees, every
+    outgoing slot and band in range *)
+Theorem C03_diffuse_sampling_independent_vis {T} {O : Ops T} {RL : RingLaws T}
+    (sc sc' : @scene T) rho tm (s s' : @source T) K j d d' b t :
+  same_room sc sc' ->
+  (forall i j d b, i < s_np sc -> j < s_np sc -> vis_sym sc i j = true -> d < s_nd sc -> b < s_nb sc ->
+     beta sc (wall sc j) (in_index sc i j) d b = rho (wall sc j) b) ->
+  (forall i j d b, i < s_np sc' -> j < s_np sc' -> vis_sym sc' i j = true -> d < s_nd sc' -> b < s_nb sc' ->
+     beta sc' (wall sc' j) (in_index sc' i j) d b = rho (wall sc' j) b) ->
+  (forall i d b, i < s_np sc -> nthb (src_vis s) i = true -> d < s_nd sc -> b < s_nb sc ->
+     beta sc (wall sc i) (src_in_index sc s i) d b = rho (wall sc i) b) ->
+  (forall i d b, i < s_np sc' -> nthb (src_vis s') i = true -> d < s_nd sc' -> b < s_nb sc' ->
+     beta sc' (wall sc' i) (src_in_index sc' s' i) d b = rho (wall sc' i) b) ->
+  wf_scene sc -> wf_scene sc' ->
+  src_pos s = src_pos s' -> src_vis s = src_vis s' -> src_share s = src_share s' ->
+  src_dirfac s = None -> src_dirfac s' = None ->
+  j < s_np sc -> d < s_nd sc -> d' < s_nd sc' -> b < s_nb sc -> t < n_samples tm ->
+  get4 (patch_hist sc tm s K) j d b t = get4 (patch_hist sc' tm s' K) j d' b t.
+Proof. exact (diffuse_sampling_independent_vis sc sc' rho tm s s' K j d d' b t). Qed.
+Print Assumptions C03_diffuse_sampling_independent_vis.
+
 (** (5) "fed only with the scene description": for EVERY room given by its wall polygons, patch
     size, BRDF tables/direction sets and attenuation, the histograms that the composed model
     (tiling, centroids, areas, patch visibility, pair list, form factors, wall frames, point
